@@ -476,7 +476,10 @@ func (m *Manager) TerminateSession(ctx context.Context, sessionID string, reason
 	session.UpdatedAt = time.Now()
 	m.mu.Unlock()
 
-	// Release IP addresses
+	// Release IP addresses. The session is going away whatever happens to the caller:
+	// a cancelled or expired caller context (client gone, CoA timeout) must not abort
+	// the release, or the address stays allocated with no session left to free it
+	ctx = context.WithoutCancel(ctx)
 	if session.IPv4 != nil && m.allocator != nil {
 		if err := m.allocator.ReleaseIPv4(ctx, session.IPv4); err != nil {
 			m.logger.Warn("Failed to release IPv4",
